@@ -276,6 +276,7 @@ if (job.module) {
 const props = job.props || ['C03', 'C11', 'C12'];
 const optionSets = job.options || [{}];
 
+const parserB = job.specB ? rt.buildParserFromRuntype(build(job.specB), 'T', false) : null;
 function isParseFailure(e) { return e instanceof Error && typeof e.message === 'string' && e.message.startsWith('Failed to parse '); }
 
 function body(input) {
@@ -328,6 +329,10 @@ function body(input) {
         if (s1 !== s2) V('C12', `printErrors is not deterministic (${tag})`);
         if (parseThrew && isParseFailure(parseThrew)) { let again; try { parser.parse(input, opts); } catch (e) { if (e instanceof $S.NeedsRefinement || e instanceof $S.Unmodelled || e instanceof $S.Infeasible) throw e; again = e; } if (!again || again.message !== parseThrew.message) V('C12', `parse error message is not deterministic (${tag})`); }
       }
+    }
+    if (props.includes('C13') && parserB) {
+      const vb = parserB.validate(input, opts);
+      if (vb !== v) V('C13', `validators with equal hash256 disagree: ${v} vs ${vb}`);
     }
     if (props.includes('C01') && !opts.disallowExtraProperties) {
       const exp = refMember(job.expected, input, job.expectedDefs || {});
